@@ -75,6 +75,8 @@ TRegStruct(id, xs) == [T0 EXCEPT !.k = "struct", !.id = id, !.xs = xs, !.ro = [i
 TPtrTo(id, x)   == [T0 EXCEPT !.k = "ptrto", !.id = id, !.xs = <<x>>]
 TNilPtr(id)     == [T0 EXCEPT !.k = "nilptr", !.id = id]
 TRValue(id, x)  == [T0 EXCEPT !.k = "rvalue", !.id = id, !.xs = <<x>>]       \* reflect.ValueOf(x) passed as an operand
+\* reflect.ValueOf(struct{ f T }{x}).Field(0): a reflect.Value obtained through an unexported field (CanInterface false)
+TRValueRO(id, x) == [T0 EXCEPT !.k = "rvaluero", !.id = id, !.xs = <<x>>]
 TInvalidRV(id)  == [T0 EXCEPT !.k = "invalidrv", !.id = id]                  \* reflect.Value{}
 \* statically typed containers ([]T, map[K]V with concrete T, K, V): elements are not interface-kind values
 TSStr(id, b)    == [T0 EXCEPT !.k = "sstr", !.id = id, !.b = b]              \* interfaces.SafeString: string kind + SafeValue
@@ -100,6 +102,11 @@ SSafeBytes(b)    == SOp("SafeBytes", b, 0, <<>>, <<>>)
 SUnsafeBytes(b)  == SOp("UnsafeBytes", b, 0, <<>>, <<>>)
 SWrite(b)        == SOp("Write", b, 0, <<>>, <<>>)
 SWriteStr(b)     == SOp("WriteString", b, 0, <<>>, <<>>)      \* io.WriteString(state, s) -> pp.WriteString
+\* single bytes / runes through the plain io.Writer side: the builder has WriteByte / WriteRune of its own (the
+\* buffer's: a byte >= 0x80 becomes '?', an invalid rune U+FFFD); a fmt.State only has Write, so on a printer
+\* they stand for Write of that byte / of the rune's encoding
+SWriteByte(c)    == SOp("WriteByte", <<>>, c, <<>>, <<>>)
+SWriteRune(r)    == SOp("WriteRune", <<>>, r, <<>>, <<>>)
 SPrint(ts)       == SOp("Print", <<>>, 0, <<>>, ts)
 SPrintf(f, ts)   == SOp("Printf", <<>>, 0, f, ts)
 SPanic(t)        == SOp("Panic", <<>>, 0, <<>>, <<t>>)
@@ -175,11 +182,11 @@ IsRegistered(t) == "REG" \in t.caps /\ "NILP" \notin t.caps
 \* implements SafeValue: marked objects and the Safe() wrapper struct itself
 HasSafeValue(t) == HasCap(t, "SV") \/ t.k \in {"safe", "sstr"}
 IsError(t)      == HasCap(t, "ER")
-IsSafeFormatter(t) == HasCap(t, "SF") \/ t.k \in {"rstring", "rbytes"}
+IsSafeFormatter(t) == HasCap(t, "SF") \/ t.k \in {"rstring", "rbytes", "builder"}
 IsSafeMessager(t)  == HasCap(t, "SM") \/ t.k = "safe"
 IsFormatter(t)     == HasCap(t, "FM") \/ t.k \in {"safe", "unsafe"}
 IsGoStringer(t)    == HasCap(t, "GS")
-IsStringer(t)      == HasCap(t, "ST")
+IsStringer(t)      == HasCap(t, "ST") \/ t.k = "builder"
 IsNilRecv(t)       == HasCap(t, "NILP")        \* a typed nil pointer whose methods dereference it
 IsStringKind(t)    == t.k \in {"string", "rstring", "sstr"}
 IsPtrKind(t)       == t.k \in {"ptrto", "nilptr", "map", "slice", "tslice", "tmap"} \/ IsNilRecv(t)
@@ -301,6 +308,8 @@ HandleMethods(ps0, a, verb0) ==
        IN
        IF ps.ov # "unsafe" /\ IsSafeFormatter(a) THEN
             <<TRUE, CatchPanic(IF a.k \in {"rstring", "rbytes"} THEN PPPrint(ps, <<a>>)
+                               \* builder.StringBuilder.SafeFormat: p.Print(b.RedactableString()), the verb is ignored
+                               ELSE IF a.k = "builder" THEN PPPrint(ps, <<TRStr(a.id, a.b)>>)
                                ELSE IF IsNilRecv(a) THEN [Call(ps, "SafeFormat", a, verb) EXCEPT !.exc = <<TStr(0, <<>>)>>]
                                ELSE RunScript(Call(ps, "SafeFormat", a, verb), a.scr, verb, a),
                                a, verb, MSafeFormat)>>
@@ -337,10 +346,11 @@ HandleMethods(ps0, a, verb0) ==
             ELSE <<FALSE, ps>>
        ELSE IF verb \in {VV, VS, VX, VXX, VQ} /\ (IsError(a) \/ IsStringer(a)) THEN
             LET meth == IF IsError(a) THEN "Error" ELSE "String"
-                s1 == Call(ps, meth, a, verb)
+                s1 == IF a.k = "builder" THEN ps ELSE Call(ps, meth, a, verb)        \* (the library's own type: not logged)
                 s2 == IF a.pan # <<>> \/ IsNilRecv(a)
                       THEN [s1 EXCEPT !.exc = IF a.pan # <<>> THEN a.pan ELSE <<TStr(0, <<>>)>>]
-                      ELSE FmtString(s1, a.b, "ret", a, verb)
+                      \* Buffer.String(): the content with the markers stripped
+                      ELSE FmtString(s1, IF a.k = "builder" THEN Strip(a.b) ELSE a.b, "ret", a, verb)
             IN <<TRUE, CatchPanic(s2, a, verb, IF IsError(a) THEN MError ELSE MString)>>
        ELSE <<FALSE, ps>>
 
@@ -365,6 +375,8 @@ RunOp(ps, op, verb, a) ==
        [] op.o = "UnsafeRune"   -> unsafely(LAMBDA s : WRune(s, op.n))
        [] op.o = "UnsafeByte"   -> unsafely(LAMBDA s : WByte(s, op.n))
        [] op.o \in {"Write", "WriteString"} -> unsafely(LAMBDA s : W(s, op.b))     \* pp.Write / pp.WriteString
+       [] op.o = "WriteByte"    -> unsafely(LAMBDA s : W(s, <<op.n>>))
+       [] op.o = "WriteRune"    -> unsafely(LAMBDA s : W(s, EncodeRune(op.n)))
        \* the hook's p.UnsafeString(err.Error()): Error() may panic
        [] op.o = "UnsafeErrText" -> LET e == op.ts[1] IN
                                     IF e.pan # <<>> THEN [Call(ps, "Error", e, verb) EXCEPT !.exc = e.pan]
@@ -423,6 +435,7 @@ PrintArg2(ps, a, verb) ==
          \* a reflect.Value operand: printArg handles the extractable value itself (printValue would not at depth 0)
          [] a.k = "rvalue" -> IF a.xs[1].k = "nil" THEN W(ps, InvReflectS)          \* reflect.ValueOf(nil) is invalid
                               ELSE PrintChecked(ps, a.xs[1], verb, 0, FALSE)
+         [] a.k = "rvaluero" -> PrintChecked(ps, a.xs[1], verb, 0, TRUE)
          [] a.k = "invalidrv" -> W(ps, InvReflectS)
          [] OTHER -> LET hm == HandleMethods(ps, a, verb) IN
                      IF hm[1] THEN hm[2] ELSE PrintValue(hm[2], a, verb, 0, FALSE)
@@ -602,15 +615,20 @@ SBOp(ps, op) ==
     \* SafeInt: SetMode(SafeEscaped); Fprintf(&b.Buffer, "%d", s) -- the digits, written in safe mode
     [] op.o \in {"SafeInt", "SafeUint"}            -> Rend([SetMode(ps, MS) EXCEPT !.fl = NoFlags], "val", op.ts[1], VD, 0)
     [] op.o = "SafeFloat"                         -> Rend([SetMode(ps, MS) EXCEPT !.fl = NoFlags], "val", op.ts[1], VV, 0)
-    [] op.o \in {"UnsafeString", "UnsafeBytes", "Write"} -> W(SetMode(ps, MU), op.b)
-    [] op.o = "UnsafeRune"                        -> WRune(SetMode(ps, MU), op.n)
-    [] op.o = "UnsafeByte"                        -> WByte(SetMode(ps, MU), op.n)
+    [] op.o \in {"UnsafeString", "UnsafeBytes", "Write", "WriteString"} -> W(SetMode(ps, MU), op.b)
+    [] op.o \in {"UnsafeRune", "WriteRune"}        -> WRune(SetMode(ps, MU), op.n)
+    [] op.o \in {"UnsafeByte", "WriteByte"}        -> WByte(SetMode(ps, MU), op.n)
     [] op.o = "Print"                             -> SBWriteOut(ps, DoPrint(SBNested(ps), op.ts))
     [] op.o = "Printf"                            -> SBWriteOut(ps, DoPrintf(SBNested(ps), op.f, op.ts))
     [] op.o = "Panic"                             -> [ps EXCEPT !.exc = op.ts]
     [] op.o = "JoinTo"                            -> SBRunOps(ps, JoinOps(op))
 SBRunOps(ps, ops) == IF ops = <<>> THEN ps ELSE SBRunOps(SBOp(ps, Head(ops)), Tail(ops))
 SBRun(ops) == SBRunOps(NewPS, ops)
+\* a builder.StringBuilder as an OPERAND: b is what it holds (RedactableString() after the SafeWriter calls ops, byte
+\* payloads only), computed when the term is built so that the printer operators need not call the builder layer.  It is a
+\* SafeFormatter (prints its content as the redactable it is, whatever the verb) and a Stringer (content without markers).
+TBuilder(id, ops) == [T0 EXCEPT !.k = "builder", !.id = id, !.scr = ops, !.b = BOut(SBRun(ops).bs)]
+BuilderText(a) == a.b
 
 ---------------------------------------------------------------------------
 \* entry points: the final printer state; Out is what the caller gets (none if the panic propagated)
